@@ -7,82 +7,6 @@ import vlib
 DELAY, TIMEOUT = 2, 4
 
 
-def split_traces(evs):
-    traces, cur = [], None
-    for e in evs:
-        if e.get("e") == "reset":
-            cur = [e]
-            traces.append(cur)
-        elif cur is not None:
-            cur.append(e)
-    return traces
-
-
-def check_traces(ctx, traces, label):
-    """Validate a batch; on rejection bisect down to the first offending trace and report it."""
-    # crashes / structural problems are decided without TLC
-    good = []
-    for tr in traces:
-        crash = [e for e in tr if e.get("e") == "crash"]
-        if crash:
-            ctx.violation("crash:" + vlib.fp(tr[0]["scen"]), "Dial scenario crashed/leaked in synctest: %s" % crash[0]["msg"][:300],
-                          {"scenario": tr[0]["scen"], "trace": tr})
-            continue
-        good.append(tr)
-
-    def flat(trs):
-        return [e for tr in trs for e in tr]
-
-    def validate(trs, name):
-        f = ctx.path("traces-%s.ndjson" % name)
-        vlib.write_ndjson(f, flat(trs))
-        return ctx.validate_traces("TraceDial", "TraceDial.cfg", f, name="trace-" + name)
-
-    if not good:
-        return
-    ok, info = validate(good, label)
-    if ok:
-        ctx.traces += len(good)
-        return
-    # locate the rejected trace: high-water index -> trace number
-    bad_idx = None
-    if info["rejected_at"]:
-        pos, k = 0, 0
-        for k, tr in enumerate(good):
-            if pos + len(tr) >= info["rejected_at"]:
-                bad_idx = k
-                break
-            pos += len(tr)
-    if bad_idx is None:
-        # invariant violation: TLC stops at the first; find by bisection
-        lo, hi = 0, len(good)
-        while hi - lo > 1:
-            mid = (lo + hi) // 2
-            ok2, _ = validate(good[lo:mid], label + "-bis")
-            if ok2:
-                lo = mid
-            else:
-                hi = mid
-        bad_idx = lo
-    ctx.traces += bad_idx
-    tr = good[bad_idx]
-    ok1, info1 = validate([tr], label + "-single")
-    if ok1:
-        raise vlib.Inconclusive("trace batch rejected but the single trace is accepted (harness/TLC problem)")
-    what = "real Dial trace not explained by Dial.tla"
-    if info1["violated"]:
-        what = "invariant %s violated on a real Dial trace" % info1["violated"]
-    elif info1["rejected_at"]:
-        at = info1["rejected_at"]
-        what += " at event %d: %s" % (at, json.dumps(tr[at - 1]) if at - 1 < len(tr) else "end")
-    ctx.violation("trace:" + vlib.fp(tr[0]["scen"]), what + " scenario=" + json.dumps(tr[0]["scen"]),
-                  {"scenario": tr[0]["scen"], "trace": tr, "tlc": info1["out_tail"][-1500:]})
-    # keep validating the rest so that one rejection does not hide others
-    rest = good[bad_idx + 1:]
-    if rest and len(ctx.violations) < 5:
-        check_traces(ctx, rest, label + "r")
-
-
 def run(ctx):
     ctx.rule = ("scenario = (n targets, per-target outcome {ok(d),fail(d),hang,resolve-error}, MaxConcurrency K, caller cancel time) "
                 "enumerated by TLC from Dial.tla Init; distinct = distinct scenario; non-trivial = n >= 1")
@@ -114,7 +38,7 @@ def run(ctx):
     rc, out = ctx.go_test("^TestDialScenarios$", env={"VH_IN": f_in, "VH_OUT": f_out, "VH_DELAY": DELAY, "VH_TIMEOUT": TIMEOUT,
                                                        "VH_PROCS": procs}, timeout=1500)
     evs = vlib.read_ndjson(f_out)
-    traces = split_traces(evs)
+    traces = vlib.split_traces(evs)
     want = len(scens) * len(procs.split(","))
     if len(traces) < want:
         # the harness died in scenario number len(traces)
@@ -130,4 +54,4 @@ def run(ctx):
     # validate in chunks so that a rejection is located quickly
     CH = 4000
     for i in range(0, len(traces), CH):
-        check_traces(ctx, traces[i:i + CH], "b%d" % (i // CH))
+        vlib.check_traces(ctx, traces[i:i + CH], "b%d" % (i // CH))
